@@ -58,6 +58,16 @@ def gen_cloud(rng, n, dim, kind):
             x = [dy(rng, -4, 4) for _ in range(dim - 1)]
             P.append(x + [(c - sum(ai * xi for ai, xi in zip(a, x))) / a[-1]])
         meta = ",".join(repr(v) for v in a + [c])
+    elif kind == "ribbon":            # exactly planar but THIN: one lidar ring with a little in-plane jitter — strongly
+        # anisotropic neighbourhoods (two eigenvalues far apart, the third 0): an eigen-solver that is only accurate for
+        # well-separated, comparable eigenvalues shows here
+        a = [float(rng.randint(-3, 3)) for _ in range(dim - 1)] + [rng.choice([1.0, 2.0, 4.0]) * rng.choice([-1, 1])]
+        c = dy(rng, -8, 8) or 2.0
+        thin = 2.0 ** -rng.randint(6, 9)
+        for i in range(n):
+            x = [dy(rng, -4, 4)] + [dy(rng, -4, 4) * thin + 1.0 for _ in range(dim - 2)]
+            P.append(x + [(c - sum(ai * xi for ai, xi in zip(a, x))) / a[-1]])
+        meta = ",".join(repr(v) for v in a + [c])
     elif kind == "plane-noisy":
         R = rand_rotation(rng, dim)
         off = rng.uniform(1, 8) * rng.choice([-1, 1])
@@ -108,7 +118,7 @@ def gen_cloud(rng, n, dim, kind):
     return P, meta
 
 
-KINDS = ["plane-axis", "plane-exact", "plane-noisy", "piecewise", "sphere", "cylinder", "noisy"]
+KINDS = ["plane-axis", "plane-exact", "ribbon", "plane-noisy", "piecewise", "sphere", "cylinder", "noisy"]
 
 
 WITNESS = [[1.0, 0.0, -0.5], [-1.0, 0.0, -0.5], [0.0, 1.0, -0.5], [0.0, -1.0, -0.5], [0.0, 0.0, -0.5], [5.0, 5.0, -0.5]]
